@@ -23,6 +23,7 @@ type c02Plan struct {
 	Prio  []int `json:"prio"`   // priorities per actor (requests first, then deploys, then probes)
 	Avoid bool  `json:"avoid"`  // steer around the shapes of the listed known findings
 	Probe bool  `json:"probe"`  // also park probe goroutines between state change and rotation update
+	DeployMs int `json:"deploy_ms"` // deploy timeout of the redeploys (the drain timeout stays far above every service time)
 }
 
 func c02Gen(t *rapid.T) c02Plan {
@@ -34,7 +35,7 @@ func c02Gen(t *rapid.T) c02Plan {
 	}
 	nr := rapid.IntRange(1, 6).Draw(t, "nreqs")
 	for i := 0; i < nr; i++ {
-		p.Durs = append(p.Durs, rapid.SampledFrom([]int{0, 0, 10, 50, 300}).Draw(t, "dur"))
+		p.Durs = append(p.Durs, rapid.SampledFrom([]int{0, 0, 10, 50, 300, 800}).Draw(t, "dur"))
 	}
 	ns := rapid.IntRange(5, 60).Draw(t, "nsched")
 	for i := 0; i < ns; i++ {
@@ -46,6 +47,7 @@ func c02Gen(t *rapid.T) c02Plan {
 	}
 	p.Avoid = rapid.IntRange(0, 6).Draw(t, "avoid") > 0
 	p.Probe = rapid.Bool().Draw(t, "probe")
+	p.DeployMs = rapid.SampledFrom([]int{50, 300, 5000}).Draw(t, "deploy-timeout")
 	return p
 }
 
@@ -59,6 +61,13 @@ func c02Run(t *testing.T, p c02Plan) (res vfResult) {
 		opts := ServiceOptions{Hosts: []string{"svc.test"}, TLSRedirect: true}
 		opts.Normalize()
 		to := vfFastTargetOptions()
+		to.HealthCheckConfig.Interval = 100 * time.Millisecond // probes complete while drains are in progress
+		w.noteInterval(100 * time.Millisecond)
+		deployTimeout := vfMs(p.DeployMs)
+		if deployTimeout <= 0 || p.Probe {
+			// with probe goroutines parked by the controller, "became healthy in time" is the controller's doing
+			deployTimeout = 5 * time.Second
+		}
 		sets := make([][]string, len(p.Sets))
 		for j, n := range p.Sets {
 			for i := 0; i < n; i++ {
@@ -103,7 +112,7 @@ func c02Run(t *testing.T, p c02Plan) (res vfResult) {
 		}
 		startCmd := func(k int) {
 			sc.spawn(cmdActor(k), func() {
-				cmdRes[k] = w.runCmd(func() error { return r.DeployService("svc", sets[k], opts, to, 5*time.Second, drain) })
+				cmdRes[k] = w.runCmd(func() error { return r.DeployService("svc", sets[k], opts, to, deployTimeout, drain) })
 			})
 		}
 		nextReq, nextCmd := 0, 1
@@ -262,7 +271,10 @@ func c02Run(t *testing.T, p c02Plan) (res vfResult) {
 				if swap < 0 {
 					swap = bi[k]
 				}
-				if entry >= 0 && entry < swap && end > ins[k] && ins[k] != inf {
+				// the listed finding: the request held the pre-swap service and was REFUSED at the claim (503, never
+				// claimed a target) after the drain of deploy k had begun
+				claimed := vfFirstSeq(evs, a, "point", "target.claimed") >= 0
+				if entry >= 0 && entry < swap && end > ins[k] && ins[k] != inf && rp.Status == 503 && !claimed {
 					sig = "stale-service-claim"
 				}
 			}
